@@ -169,6 +169,24 @@ func Assert(c bool, label string) {
 	}
 }
 
+// Non-forking boolean/integer combinators: under the engine they build one term instead of branching.
+func BAnd(a, b bool) bool { return a && b }
+func BOr(a, b bool) bool  { return a || b }
+func BNot(a bool) bool    { return !a }
+func Ite(c bool, a, b int) int {
+	if c {
+		return a
+	}
+	return b
+}
+func BIte(c, a, b bool) bool {
+	if c {
+		return a
+	}
+	return b
+}
+func Eq(a, b int) bool { return a == b }
+
 func Reach(tag string) {}
 
 func Bound(name string, quick, thorough int) int {
@@ -450,9 +468,171 @@ func deepEq(a, b reflect.Value, d int) bool {
 func StackMark()     {}
 func PeakDepth() int { return 0 }
 
-func Spawn(f func()) { go f() }
-func Yield()         { runtime.Gosched() }
-func Quiesce()       {}
+// ---- cooperative scheduler (native side of a concurrent counterexample replay)
+//
+// When the vector carries a schedule, every scheduling point of the symbolic run (spawn, atomic operation, mutex
+// lock/unlock, once, task end, quiesce) has one entry naming the task that ran next. The instrumented library
+// copies call SchedPoint at the same places, so the native run follows exactly that interleaving.
+
+type ntask struct {
+	id   int
+	wake chan struct{}
+	done bool
+}
+
+var (
+	ntasks []*ntask
+	ncur   *ntask
+	spos   int
+)
+
+func scheduled() bool { load(); return len(vec.Sched) > 0 }
+
+func ensureMain() {
+	if ncur == nil {
+		ncur = &ntask{id: 0, wake: make(chan struct{})}
+		ntasks = []*ntask{ncur}
+	}
+}
+
+func nextSched() int {
+	if spos >= len(vec.Sched) {
+		return -1
+	}
+	v := vec.Sched[spos]
+	spos++
+	return v
+}
+
+func switchTo(t *ntask) {
+	me := ncur
+	ncur = t
+	t.wake <- struct{}{}
+	<-me.wake
+	ncur = me
+}
+
+func Spawn(f func()) {
+	if !scheduled() {
+		go f()
+		return
+	}
+	ensureMain()
+	t := &ntask{id: len(ntasks), wake: make(chan struct{})}
+	ntasks = append(ntasks, t)
+	go func() {
+		<-t.wake
+		ncur = t
+		defer func() {
+			t.done = true
+			if r := recover(); r != nil {
+				fmt.Printf("ZZVERIF-OUTCOME goroutine panic:%v\n", r)
+				os.Exit(3)
+			}
+			next := nextSched()
+			if next < 0 || next >= len(ntasks) || ntasks[next].done {
+				next = 0
+			}
+			ncur = ntasks[next]
+			ntasks[next].wake <- struct{}{}
+		}()
+		f()
+	}()
+	SchedPoint("spawn")
+}
+
+// SchedPoint hands control to the task recorded for this point.
+func SchedPoint(kind string) {
+	if !scheduled() {
+		runtime.Gosched()
+		return
+	}
+	ensureMain()
+	if len(ntasks) <= 1 {
+		return
+	}
+	next := nextSched()
+	if next < 0 || next == ncur.id || next >= len(ntasks) || ntasks[next].done {
+		return
+	}
+	switchTo(ntasks[next])
+}
+
+func Yield() { SchedPoint("yield") }
+
+func othersAlive() bool {
+	for _, t := range ntasks {
+		if t != ncur && !t.done {
+			return true
+		}
+	}
+	return false
+}
+
+// Quiesce lets all other tasks run (in recorded order) until none is left.
+func Quiesce() {
+	if !scheduled() {
+		for i := 0; i < 200; i++ {
+			runtime.Gosched()
+			time.Sleep(time.Millisecond)
+		}
+		return
+	}
+	ensureMain()
+	for othersAlive() {
+		next := nextSched()
+		if next < 0 {
+			break
+		}
+		if next != ncur.id && next < len(ntasks) && !ntasks[next].done {
+			switchTo(ntasks[next])
+		}
+	}
+}
+
+// MutexLock/MutexUnlock/OnceDo mirror the executor's model of sync.Mutex and sync.Once.
+func MutexLock(mu *sync.Mutex) {
+	if !scheduled() {
+		mu.Lock()
+		return
+	}
+	SchedPoint("mutex lock")
+	for !mu.TryLock() {
+		SchedPoint("blocked")
+	}
+}
+
+func MutexUnlock(mu *sync.Mutex) {
+	mu.Unlock()
+	if scheduled() {
+		SchedPoint("mutex unlock")
+	}
+}
+
+var onceState = map[*sync.Once]int{}
+
+func OnceDo(o *sync.Once, f func()) {
+	if !scheduled() {
+		o.Do(f)
+		return
+	}
+	SchedPoint("once")
+	switch onceState[o] {
+	case 2:
+		return
+	case 1:
+		for onceState[o] != 2 {
+			SchedPoint("blocked")
+		}
+		return
+	}
+	onceState[o] = 1
+	defer func() { onceState[o] = 2 }()
+	f()
+	onceState[o] = 2
+	SchedPoint("once done")
+}
+
 func Replaying() bool { return true }
 
 // RunReplay runs a harness natively and reports how it ended on stdout in a fixed format.
